@@ -1,13 +1,113 @@
 (* C03 - The proxy relays both directions byte-exactly, with half-close and cleanup.
-   Property theorems only (lemmas: proofs/RelayProofs.v). *)
-From Coq Require Import List Bool Arith.
+   Property theorems only (lemmas: proofs/RelayProofs.v, RelayFinalProofs.v, RelayTermProofs.v).
+
+   The model (model/Relay.v) is a small-step system: Pump, Copy_i, Main and the client/upstream
+   applications; an execution is a list of labels (schedule and chunk sizes are oracles).
+   [reachable] allows abrupt closes (CAbort / UAbort), [reachable_ff] does not. *)
+From Coq Require Import List Bool Arith Lia.
 From Coq.Strings Require Import Byte.
+From L4.gen Require Import Shape.
 From L4.model Require Import Relay.
-From L4.proofs Require Import RelayProofs.
+From L4.proofs Require Import RelayProofs RelayFinalProofs RelayTermProofs.
 Import ListNotations.
 
+(* in every reachable state (abrupt closes included) each upstream's log is a prefix of the client's
+   stream and the client's log restricted to upstream i is a prefix of what i sent: no loss,
+   duplication or reordering *)
+Theorem C03_relay_safety : forall c s, reachable c s ->
+  forall i, i < n_up c ->
+    prefix (u_log (ups s i)) (c_total c) /\ prefix (proj i (c_log (cl s))) (u_total c i).
+Proof. exact relay_safety. Qed.
+
+(* a fault-free execution that cannot be continued has reached the final state: every upstream's
+   log = the client's stream, the client's log is an order-preserving interleaving of what the
+   upstreams sent, both EOFs observed, Handle returned, every upstream socket closed *)
+Theorem C03_relay_final : forall c s,
+  compatible c -> reachable_ff c s -> terminal c s -> final c s.
+Proof. exact relay_final. Qed.
+
+(* one peer: the client's log is exactly what the upstream sent *)
+Theorem C03_relay_final_one_peer : forall c s,
+  n_up c = 1 -> final c s -> map snd (c_log (cl s)) = u_total c 0.
+Proof. exact final_one_peer. Qed.
+
+(* ... which is what the harness observes *)
+Theorem C03_final_observed : forall c s, final c s -> observe c s = final_obs c.
+Proof. exact final_observe. Qed.
+
+(* every step decreases a measure: no execution (faults included) is longer than the measure of its
+   first state, so every execution can be extended to a maximal one *)
+Theorem C03_relay_terminates : forall c ls s s', exec c s ls = Some s' -> length ls + measure c s' <= measure c s.
+Proof. exact exec_bounded. Qed.
+
+(* no deadlock: a state reached without faults is final or can take a non-fault step; hence every
+   maximal fault-free execution ends in the final state, for every chunking and schedule *)
+Theorem C03_relay_progress : forall c s,
+  compatible c -> reachable_ff c s -> final c s \/ exists l s', is_fault l = false /\ step c s l = Some s'.
+Proof. exact progress_or_final. Qed.
+Theorem C03_relay_completes : forall c s,
+  compatible c -> reachable_ff c s -> exists ls s', fault_free ls /\ exec c s ls = Some s' /\ final c s'.
+Proof. intros c s Hc Hr. exact (relay_completes c Hc (measure c s) s Hr (le_n _)). Qed.
+
+(* half-close is independent per direction: whichever side finishes first, the other direction
+   keeps flowing until it finishes too.  (a) the client finishes first, upstreams only after EOF *)
+Theorem C03_half_close_independent_client_first : forall c s,
+  cfin c = FinFree -> (forall i, i < n_up c -> up_cw c i = true) ->
+  reachable_ff c s -> terminal c s -> final c s.
+Proof. exact half_close_to_upstreams. Qed.
+(* (b) the upstreams finish first, the client only after it has seen EOF: for every chain whose
+   transport offers half-close and that contains only connection types of this repository *)
+Theorem C03_half_close_independent_upstream_first : forall c s,
+  ~ In LProxyProtocol (down c) -> transport_offers (down c) = true ->
+  (forall i, i < n_up c -> ufin c i = FinFree /\ up_cw c i = true) ->
+  reachable_ff c s -> terminal c s -> final c s.
+Proof. exact half_close_to_client. Qed.
+
+(* the method sets: behind wrappers of this repository CloseWrite on down.Conn reaches the transport
+   exactly when the transport offers it (gen/Shape.v: Connection, throttledConn, nextConn declare it) *)
+Theorem C03_half_close_offered : forall ch, ~ In LProxyProtocol ch -> cw_effect ch = transport_offers ch.
+Proof. exact cw_effect_repo. Qed.
+Example C03_shipped_chains :
+  cw_effect chain_direct = true /\ cw_effect chain_throttle = true /\ cw_effect chain_tee = true /\
+  cw_effect chain_tls = true /\ cw_effect chain_udp = false /\ transport_offers chain_udp = false.
+Proof. vm_compute. repeat split. Qed.
+
+(* refuted for the third-party *proxyprotocol.Conn (recorded finding): the transport offers half-close,
+   the upstream has finished and everything has been delivered, yet nobody sees EOF and Handle waits.
+   (Before commits 4d2bee9 / 6a24666 the same held for [throttle; tcp] and [tee; l4conn; tcp].) *)
+Theorem C03_half_close_lost_refuted : exists c s,
+  transport_offers (down c) = true /\ cfin c = FinAfterEof /\ (forall i, i < n_up c -> ufin c i = FinFree /\ up_cw c i = true) /\
+  reachable_ff c s /\ terminal c s /\ lossy (px s) = false /\
+  u_finned (ups s 0) = true /\ proj 0 (c_log (cl s)) = u_total c 0 /\ u_log (ups s 0) = c_total c /\
+  c_eof (cl s) = false /\ u_eof (ups s 0) = false /\ mainp (px s) = MRecv /\ ~ final c s.
+Proof. exact half_close_lost_witness. Qed.
+
+(* dialPeers closes every connection it opened when a later peer cannot be dialled *)
 Theorem C03_cleanup_on_dial_failure : forall rs op cl,
   dial_peers rs 0 [] = (op, cl, false) -> ~ In DialOkHeaderErr rs -> cl = op.
 Proof. intros rs op cl. exact (dial_peers_cleanup rs 0 [] op cl). Qed.
+Theorem C03_dial_success_closes_nothing : forall rs op cl,
+  dial_peers rs 0 [] = (op, cl, true) -> cl = [] /\ length op = length rs.
+Proof. intros rs op cl. exact (dial_peers_ok_none_closed rs 0 [] op cl). Qed.
 
+(* ---- non-vacuity: a concrete two-peer scenario behind tee, client waiting for EOF ---- *)
+Example C03_nonvacuous :
+  let c := ex_cfg chain_tee FinAfterEof FinFree in
+  compatible c /\ reachable_ff c (ex_state c) /\ terminal c (ex_state c) /\ final c (ex_state c) /\
+  observe c (ex_state c) = final_obs c.
+Proof. exact ex_nonvacuous. Qed.
+
+Print Assumptions C03_relay_safety.
+Print Assumptions C03_relay_final.
+Print Assumptions C03_relay_final_one_peer.
+Print Assumptions C03_final_observed.
+Print Assumptions C03_relay_terminates.
+Print Assumptions C03_relay_progress.
+Print Assumptions C03_relay_completes.
+Print Assumptions C03_half_close_independent_client_first.
+Print Assumptions C03_half_close_independent_upstream_first.
+Print Assumptions C03_half_close_offered.
+Print Assumptions C03_half_close_lost_refuted.
 Print Assumptions C03_cleanup_on_dial_failure.
+Print Assumptions C03_dial_success_closes_nothing.
+Print Assumptions C03_nonvacuous.
